@@ -97,6 +97,9 @@ def operations(tier, cfg='full'):
     op('customize(sub_name)', lambda m: True, lambda m: m.customize(sub_name='zz'), {'sub_name': 'zz'})
     op('customize(type_name)', lambda m: is_complex(m), lambda m: m.customize(type_name='TN'), None)
     op('customize(default)', lambda m: is_prim(m, 'Unicode') or is_prim(m, 'Integer'), lambda m: m.customize(default=(7 if is_prim(m, 'Integer') else 'd')), None)
+    # persistence-related keywords are folded into the (mutable) sqla_column_args record of the new type
+    op('customize(pk)', lambda m: not is_complex(m) and not is_array(m), lambda m: m.customize(pk=True), None)
+    op('customize(autoincrement,server_default)', lambda m: is_prim(m, 'Integer'), lambda m: m.customize(autoincrement=True, server_default='0'), None)
     op('child_attrs(x)', lambda m: is_complex(m) and 'x' in m.get_flat_type_info(m), lambda m: m.customize(child_attrs={'x': dict(min_occurs=1)}), None)
     # delayed child_attrs: constraints for fields that do not exist yet (append_field / insert_field add them later)
     op('child_attrs(n1)', lambda m: is_complex(m) and 'n1' not in m.get_flat_type_info(m), lambda m: m.customize(child_attrs={'n1': dict(min_occurs=1)}), None)
@@ -322,7 +325,7 @@ def canon(pool):
 
 def bounds(tier):
     return {'seed_pool': [l for l, m in fresh_pool()] if False else ['Unicode', 'Integer', 'A', 'B(A)', 'Array(A)', 'Array(Integer)', 'Decimal', 'ByteArray'],
-            'operations': 19 if tier == 'quick' else 22, 'depth': 2 if tier == 'quick' else 3, 'complex_only_pool': {'seed_pool': ['A', 'B(A)'], 'operations': CX_OPS, 'depth': 3 if tier == 'quick' else 4}, 'hash_seeds': ['0', '1', '7', '1234']}
+            'operations': 21 if tier == 'quick' else 24, 'depth': 2 if tier == 'quick' else 3, 'complex_only_pool': {'seed_pool': ['A', 'B(A)'], 'operations': CX_OPS, 'depth': 3 if tier == 'quick' else 4}, 'hash_seeds': ['0', '1', '7', '1234']}
 
 
 def first_steps(tier, cfg='full'):
